@@ -445,3 +445,125 @@ SPECS.update({
 from . import c07extra  # noqa: E402
 
 SPECS["C07"]["extra_engines"] = [c07extra.kani_dates, c07extra.srcx_dates]
+
+
+# ---------------------------------------------------------------------------------------------- text level
+def iso_codes():
+    import glob
+    f = glob.glob("/root/.cargo/registry/src/*/iso_currency-*/isodata.tsv")
+    codes = []
+    if f:
+        for i, line in enumerate(open(sorted(f)[-1], encoding="utf-8")):
+            if i == 0:
+                continue
+            c = line.split("\t")[0].strip()
+            if len(c) == 3 and c.isalpha():
+                codes.append(c)
+    return codes or ["GBP", "USD", "EUR", "JPY"]
+
+
+KIND_SLOTS = {"B": 2, "S": 2, "D": 2, "M": 2, "C": 2, "X": 0, "U": 0}
+
+
+def one_line(kind, ticker="A", day=0, c1="GBP", c2="GBP", ratio="sym"):
+    l = [kind, ticker, day, ratio if kind in "XU" else None, None, c1, c2]
+    return l
+
+
+def fam_c14(tier, seed):
+    sks = []
+    i = 0
+    tick = ["A", "BUY", "SELL", "TAX1", "0A", "GBP", "TOTAL", "RATIO", "FEES", "X9Z"]
+    curs = ["GBP", "USD", "EUR", "JPY"]
+    # every kind x ticker palette x currency pairs (both amounts symbolic; zero / non-zero optional clause chosen by the solver)
+    for k in "BSDMCXU":
+        for t in tick:
+            for c1 in (curs if KIND_SLOTS[k] else ["GBP"]):
+                for c2 in (curs if KIND_SLOTS[k] else ["GBP"]):
+                    sks.append(mk(i, "k", [one_line(k, t, 0, c1, c2)], wit=2)); i += 1
+    # every ISO-4217 code known to iso_currency on every amount slot
+    codes = iso_codes()
+    for k in "BSDMC":
+        for c in codes:
+            sks.append(mk(i, "c", [one_line(k, "A", 0, c, "GBP")], wit=0)); i += 1
+            sks.append(mk(i, "c", [one_line(k, "A", 0, "GBP", c)], wit=0)); i += 1
+    # lists of 2-3 transactions, and the report of the three renderings (GBP ledgers)
+    for l in sk.bs_family(2, 3, [0, 30], need_sell=True):
+        sks.append(mk(i, "r", l, wit=WIT, calc=1)); i += 1
+    b2 = list(sk.bs_family(2, 2, [0, 30], need_sell=True))
+    for l in sk.with_events(b2, ("X", "U", "C", "M", "D"), [0, 1], ratios=("sym",), max_events=1):
+        sks.append(mk(i, "r", l, wit=WIT, calc=1)); i += 1
+    if tier == "thorough":
+        for l in sk.bs_family(2, 3, [0, 30], tickers=("A", "B"), need_sell=True):
+            sks.append(mk(i, "r", l, wit=WIT, calc=1)); i += 1
+    return sks
+
+
+def fam_c15(tier, seed):
+    sks = []
+    i = 0
+    # validator: one transaction of each kind, and pairs (per-line independence)
+    for k in "BSDMCXU":
+        sks.append(mk(i, "v", [one_line(k)], variant="validator", mode="QPFRH", wit=2)); i += 1
+    for k1 in "BSDMCXU":
+        for k2 in "BSCX":
+            sks.append(mk(i, "v", [one_line(k1), one_line(k2, day=1)], variant="validator", mode="QPFRH", wit=5)); i += 1
+    # panic freedom on hostile numbers. Sign-free inputs make every comparison of the code two-sided, so the hostility
+    # is graded: 1 line - every field sign-free; 2 lines - quantities/ratios sign-free, money >= 0; 3 lines - quantities only
+    for l in sk.bs_family(1, 1, [0, 30], need_sell=False):
+        sks.append(mk(i, "p", l, variant="panic", mode="QPFH", wit=WIT)); i += 1
+    for k in "XUCMD":
+        sks.append(mk(i, "p", [one_line(k)], variant="panic", mode="QPFRH", wit=WIT)); i += 1
+    for l in sk.bs_family(2, 2, [0, 1, 30], need_sell=False):
+        sks.append(mk(i, "p", l, variant="panic", mode="QPFZ", wit=WIT)); i += 1
+    b1 = list(sk.bs_family(1, 1, [0, 30], need_sell=False))
+    for l in sk.with_events(b1, ("X", "U", "C", "M", "D"), [0, 1, 30], ratios=("sym",), max_events=1):
+        sks.append(mk(i, "p", l, variant="panic", mode="QPFZ", wit=WIT)); i += 1
+    n3 = 3 if tier == "quick" else 4
+    for l in sk.bs_family(3, n3, [0, 30], need_sell=True):
+        sks.append(mk(i, "q", l, variant="panic", mode="QZ", wit=WIT)); i += 1
+    if tier == "thorough":
+        for l in sk.bs_family(2, 2, [0, 1, 30], need_sell=False):
+            sks.append(mk(i, "p", l, variant="panic", mode="QPFH", wit=WIT)); i += 1
+    # magnitudes up to the top of the decimal range (valid signs, unbounded size, overflow condition modelled)
+    for l in sk.bs_family(1, 1, [0, 30], need_sell=False):
+        sks.append(mk(i, "h", l, variant="huge", mode="QPF", wit=0)); i += 1
+    for l in ([["B", "A", 0], ["S", "A", 30]], [["B", "A", 0], ["S", "A", 0]]):
+        sks.append(mk(i, "h", l, variant="huge", mode="QPF", wit=0)); i += 1
+    return sks
+
+
+def fam_c17(tier, seed):
+    sks = []
+    i = 0
+    n = 3 if tier == "quick" else 4
+    for base in (BASES[0], BASES[2]):
+        for l in sk.bs_family(2, n, [0, 1, 30, 31] if base == BASES[2] else [0, 30], need_sell=True):
+            if len({x[2] for x in l if x[0] == "S"}) <= (1 if len(l) >= 3 and tier == "quick" else 2):
+                sks.append(mk(i, "t", l, base=base, wit=WIT, mode="PF")); i += 1
+    b2 = list(sk.bs_family(2, 2, [0, 30], need_sell=True))
+    for l in sk.with_events(b2, ("D", "X", "C"), [0, 1], ratios=("2",), max_events=1):
+        sks.append(mk(i, "t", l, base=BASES[2], wit=WIT, mode="PF")); i += 1
+    return sks
+
+
+SPECS.update({
+    "C14": dict(id="C14", families=fam_c14, entry_points=["cgt_core::dsl::{transactions_to_dsl,transaction_to_dsl,format_amount}", "cgt_core::parser::parse_file (pest grammar + pest_consume node matching)", "serde Serialize/Deserialize for Transaction, Operation, CurrencyAmount (cgt-money amount.rs)", "cgt_core::calculator::calculate (three renderings)"],
+                bounds=bounds_rel((
+                    "one transaction of each of the 7 kinds x 10 tickers (incl. keyword-like BUY, SELL, TOTAL, RATIO, FEES, TAX1, 0A, GBP) x 4x4 currency pairs; every ISO-4217 code of iso_currency on each amount slot of the 5 money-carrying kinds; lists of 2..3 transactions (B/S on {0,30}, plus one event line) whose three renderings are also run through calculate; every quantity, amount and ratio a real-valued symbol, zero/non-zero optional clause chosen by the solver",
+                    "as quick plus two-security lists")),
+                assumptions=["symbolic decimals travel through text as reserved all-digit literals that the shim's Display/FromStr map to and from their terms (precision-aware)", "numeric inputs: quantity > 0, amounts >= 0, ratio > 0"],
+                outside=["that rust_decimal's own to_string/from_str round-trip every 96-bit mantissa and scale (a property of the dependency)", "MCP tool wrappers (async)", "dates other than the palette"]),
+    "C15": dict(id="C15", families=fam_c15, panic_is_subject=True, env={"SYMX_MAX_LEAVES": "600"}, entry_points=["cgt_core::validation::validate", "cgt_core::calculator::calculate (all years and year filter)", "cgt_core::dsl::transactions_to_dsl", "cgt_formatter_plain::format", "serde_json::to_string(&TaxReport)"],
+                bounds=bounds_rel((
+                    "validator: one transaction of each kind and all pairs (7 x 4), every numeric field an unconstrained real (any sign, zero); panic freedom: every B/S ledger with 1..3 lines on {0,1,30} and 1..2 trade lines plus one event line, every numeric field unconstrained in sign with magnitude <= 1e9; 'huge' family: 1..2 lines, magnitudes unbounded with the 2^96 overflow condition of the decimal type modelled",
+                    "as quick with 1..4 lines")),
+                assumptions=["a feasible zero divisor and (huge family) a result reaching 2^96 are modelled as the panics the real rust_decimal raises; other arithmetic is exact"],
+                outside=["arbitrary byte strings through the pest parser", "CLI exit status / stdout / --output / default-PDF overwrite (process and file-system effects)", "hangs", "MCP"]),
+    "C17": dict(id="C17", families=fam_c17, entry_points=["serde Serialize for TaxReport / TaxYearSummary / Disposal / Match / Section104Holding (decimal_money)", "cgt_formatter_plain::format (format_disposal)", "cgt_format::{format_gbp,format_decimal_trimmed,format_price,format_date,format_tax_year,round_gbp}", "cgt_core::calculator::calculate"],
+                bounds=bounds_rel((
+                    "every B/S ledger of one security with 2..3 lines (<= 1 disposal day for 3 lines) on {0,30} from 2024-01-10 and on {0,1,30,31} from 2024-03-07 (two tax years), 2 trade lines plus one DIVIDEND / SPLIT / CAPRETURN line; all numeric fields symbolic, so half-penny midpoints and negative results are reachable; every monetary token of the JSON and of the plain text mapped back to its term",
+                    "as quick with 2..4 lines and <= 2 disposal days")),
+                assumptions=["figures in text are located by the line formats of cgt-formatter-plain; a figure whose separators or sign are misplaced fails to map back and is reported", "exempt amounts are the embedded table's constants"],
+                outside=["PDF (Decimal -> f64 -> Typst)", "MCP tool output", "digit grouping for magnitudes the solver does not choose (the grouping code runs on the literal)"]),
+})
